@@ -25,67 +25,67 @@ import (
 	"github.com/MixinNetwork/mixin/crypto"
 )
 
-const vSnapTime = uint64(1700000000) * 1000000000
+const c05VSnapTime = uint64(1700000000) * 1000000000
 
-type vStoredTx struct {
+type c05VStoredTx struct {
 	ver  *common.VersionedTransaction
 	snap string
 }
 
-type vAsset struct {
+type c05VAsset struct {
 	asset   *common.Asset
 	balance common.Integer
 }
 
-type vStore struct {
+type c05VStore struct {
 	utxos        map[string]*common.UTXOWithLock
-	txs          map[crypto.Hash]*vStoredTx
+	txs          map[crypto.Hash]*c05VStoredTx
 	nodes        []*common.Node
 	custodian    *common.CustodianUpdateRequest
 	mint         *common.MintDistribution
-	assets       map[crypto.Hash]*vAsset
+	assets       map[crypto.Hash]*c05VAsset
 	depositLocks map[crypto.Hash]crypto.Hash
 	ghost        map[crypto.Key]crypto.Hash
-	in           *interner
+	in           *c05Interner
 }
 
-func newVStore() *vStore {
-	return &vStore{utxos: map[string]*common.UTXOWithLock{}, txs: map[crypto.Hash]*vStoredTx{},
-		assets: map[crypto.Hash]*vAsset{}, depositLocks: map[crypto.Hash]crypto.Hash{},
-		ghost: map[crypto.Key]crypto.Hash{}, in: newInterner()}
+func c05NewVStore() *c05VStore {
+	return &c05VStore{utxos: map[string]*common.UTXOWithLock{}, txs: map[crypto.Hash]*c05VStoredTx{},
+		assets: map[crypto.Hash]*c05VAsset{}, depositLocks: map[crypto.Hash]crypto.Hash{},
+		ghost: map[crypto.Key]crypto.Hash{}, in: c05NewInterner()}
 }
 
-func vRef(h crypto.Hash, i uint) string { return fmt.Sprintf("%s:%d", h.String(), i) }
+func c05VRef(h crypto.Hash, i uint) string { return fmt.Sprintf("%s:%d", h.String(), i) }
 
-func (s *vStore) ReadTransaction(h crypto.Hash) (*common.VersionedTransaction, string, error) {
+func (s *c05VStore) ReadTransaction(h crypto.Hash) (*common.VersionedTransaction, string, error) {
 	t := s.txs[h]
 	if t == nil {
 		return nil, "", nil
 	}
 	return t.ver, t.snap, nil
 }
-func (s *vStore) ReadUTXOLock(h crypto.Hash, i uint) (*common.UTXOWithLock, error) {
-	return s.utxos[vRef(h, i)], nil
+func (s *c05VStore) ReadUTXOLock(h crypto.Hash, i uint) (*common.UTXOWithLock, error) {
+	return s.utxos[c05VRef(h, i)], nil
 }
-func (s *vStore) ReadUTXOKeys(h crypto.Hash, i uint) (*common.UTXOKeys, error) {
-	u := s.utxos[vRef(h, i)]
+func (s *c05VStore) ReadUTXOKeys(h crypto.Hash, i uint) (*common.UTXOKeys, error) {
+	u := s.utxos[c05VRef(h, i)]
 	if u == nil {
 		return nil, nil
 	}
 	return &common.UTXOKeys{Mask: u.Mask, Keys: u.Keys}, nil
 }
-func (s *vStore) ReadDepositLock(d *common.DepositData) (crypto.Hash, error) {
+func (s *c05VStore) ReadDepositLock(d *common.DepositData) (crypto.Hash, error) {
 	return s.depositLocks[d.UniqueKey()], nil
 }
-func (s *vStore) ReadLastMintDistribution(uint64) (*common.MintDistribution, error) {
+func (s *c05VStore) ReadLastMintDistribution(uint64) (*common.MintDistribution, error) {
 	return s.mint, nil
 }
-func (s *vStore) LockUTXOs([]*common.Input, crypto.Hash, bool) error              { return nil }
-func (s *vStore) LockDepositInput(*common.DepositData, crypto.Hash, bool) error   { return nil }
-func (s *vStore) LockMintInput(*common.MintData, crypto.Hash, bool) error         { return nil }
-func (s *vStore) ReadAllNodes(uint64, bool) []*common.Node                        { return s.nodes }
-func (s *vStore) ReadCustodian(uint64) (*common.CustodianUpdateRequest, error)    { return s.custodian, nil }
-func (s *vStore) LockGhostKeys(keys []*crypto.Key, tx crypto.Hash, _ bool) error {
+func (s *c05VStore) LockUTXOs([]*common.Input, crypto.Hash, bool) error              { return nil }
+func (s *c05VStore) LockDepositInput(*common.DepositData, crypto.Hash, bool) error   { return nil }
+func (s *c05VStore) LockMintInput(*common.MintData, crypto.Hash, bool) error         { return nil }
+func (s *c05VStore) ReadAllNodes(uint64, bool) []*common.Node                        { return s.nodes }
+func (s *c05VStore) ReadCustodian(uint64) (*common.CustodianUpdateRequest, error)    { return s.custodian, nil }
+func (s *c05VStore) LockGhostKeys(keys []*crypto.Key, tx crypto.Hash, _ bool) error {
 	for _, k := range keys {
 		if by, ok := s.ghost[*k]; ok && by != tx {
 			return fmt.Errorf("ghost key %s locked for transaction %s", k.String(), by.String())
@@ -93,7 +93,7 @@ func (s *vStore) LockGhostKeys(keys []*crypto.Key, tx crypto.Hash, _ bool) error
 	}
 	return nil
 }
-func (s *vStore) ReadAssetWithBalance(id crypto.Hash) (*common.Asset, common.Integer, error) {
+func (s *c05VStore) ReadAssetWithBalance(id crypto.Hash) (*common.Asset, common.Integer, error) {
 	a := s.assets[id]
 	if a == nil {
 		return nil, common.Zero, nil
@@ -101,20 +101,20 @@ func (s *vStore) ReadAssetWithBalance(id crypto.Hash) (*common.Asset, common.Int
 	return a.asset, a.balance, nil
 }
 
-// interner: byte strings -> small integers; 0 = 32 zero bytes, 1 = XINAssetId
-type interner struct {
+// c05Interner: byte strings -> small integers; 0 = 32 zero bytes, 1 = XINAssetId
+type c05Interner struct {
 	m       map[string]int
 	keylike []string // values that may be asked for CheckKey, in order of first use
 	isKey   map[string]bool
 }
 
-func newInterner() *interner {
-	in := &interner{m: map[string]int{}, isKey: map[string]bool{}}
+func c05NewInterner() *c05Interner {
+	in := &c05Interner{m: map[string]int{}, isKey: map[string]bool{}}
 	in.id(make([]byte, 32))
 	in.id(common.XINAssetId[:])
 	return in
 }
-func (in *interner) id(b []byte) int {
+func (in *c05Interner) id(b []byte) int {
 	k := string(b)
 	if v, ok := in.m[k]; ok {
 		return v
@@ -123,7 +123,7 @@ func (in *interner) id(b []byte) int {
 	in.m[k] = v
 	return v
 }
-func (in *interner) key(k crypto.Key) int {
+func (in *c05Interner) key(k crypto.Key) int {
 	s := string(k[:])
 	if !in.isKey[s] {
 		in.isKey[s] = true
@@ -131,22 +131,22 @@ func (in *interner) key(k crypto.Key) int {
 	}
 	return in.id(k[:])
 }
-func (in *interner) str(s string) int { return in.id([]byte("s:" + s)) }
+func (in *c05Interner) str(s string) int { return in.id([]byte("s:" + s)) }
 
-func vState(st *State) *vStore {
-	if s, ok := st.V["vstore"].(*vStore); ok {
+func c05VState(st *State) *c05VStore {
+	if s, ok := st.V["vstore"].(*c05VStore); ok {
 		return s
 	}
-	s := newVStore()
+	s := c05NewVStore()
 	st.V["vstore"] = s
 	return s
 }
 
-func hashOf(b []byte) (h crypto.Hash) { copy(h[:], b); return }
-func keyOf(b []byte) (k crypto.Key)   { copy(k[:], b); return }
+func c05HashOf(b []byte) (h crypto.Hash) { copy(h[:], b); return }
+func c05KeyOf(b []byte) (k crypto.Key)   { copy(k[:], b); return }
 
 // the signer NodeTransactionExtraAsSigner would derive (that method panics on other tx types)
-func extraSigner(extra []byte) common.Address {
+func c05ExtraSigner(extra []byte) common.Address {
 	var signer common.Address
 	copy(signer.PublicSpendKey[:], extra)
 	signer.PrivateViewKey = signer.PublicSpendKey.DeterministicHashDerive()
@@ -154,11 +154,11 @@ func extraSigner(extra []byte) common.Address {
 	return signer
 }
 
-func pubAddr(spend, view crypto.Key) common.Address {
+func c05PubAddr(spend, view crypto.Key) common.Address {
 	return common.Address{PublicSpendKey: spend, PublicViewKey: view}
 }
 
-func leanOutput(in *interner, o *common.Output) string {
+func c05LeanOutput(in *c05Interner, o *common.Output) string {
 	var sb strings.Builder
 	w := 0
 	if o.Withdrawal != nil {
@@ -171,7 +171,7 @@ func leanOutput(in *interner, o *common.Output) string {
 	return sb.String()
 }
 
-func nodeStateCode(s string) int {
+func c05NodeStateCode(s string) int {
 	switch s {
 	case common.NodeStatePledging:
 		return 0
@@ -187,7 +187,7 @@ func nodeStateCode(s string) int {
 
 // site of a recovered panic: the innermost frame of package common outside the arithmetic and
 // codec helper files (integer.go, version.go, encoding.go, decoding.go)
-func panicSite(stack string) string {
+func c05PanicSite(stack string) string {
 	lines := strings.Split(stack, "\n")
 	for i := 0; i+1 < len(lines); i++ {
 		fn := lines[i]
@@ -217,10 +217,10 @@ func panicSite(stack string) string {
 	return "unknown"
 }
 
-func catchSite(f func() string) (out string, site string, msg string) {
+func c05CatchSite(f func() string) (out string, site string, msg string) {
 	defer func() {
 		if e := recover(); e != nil {
-			site = panicSite(string(debug.Stack()))
+			site = c05PanicSite(string(debug.Stack()))
 			out = "panic " + site
 			msg = fmt.Sprint(e)
 			if len(msg) > 160 {
@@ -231,17 +231,17 @@ func catchSite(f func() string) (out string, site string, msg string) {
 	return f(), "", ""
 }
 
-func execValidateSub(st *State, line string) Result {
+func c05ExecValidateSub(st *State, line string) Result {
 	t := strings.Fields(line)
 	if len(t) == 0 {
 		return Result{Out: "bad-op", LeanIn: "bad"}
 	}
-	s := vState(st)
+	s := c05VState(st)
 	in := s.in
 	bad := Result{Out: "bad-op", LeanIn: "bad " + t[0]}
 	switch t[0] {
 	case "reset":
-		st.V["vstore"] = newVStore()
+		st.V["vstore"] = c05NewVStore()
 		return Result{Out: "ok"}
 	case "utxo":
 		if len(t) != 2 {
@@ -251,7 +251,7 @@ func execValidateSub(st *State, line string) Result {
 		if err != nil {
 			return bad
 		}
-		s.utxos[vRef(u.Hash, u.Index)] = u
+		s.utxos[c05VRef(u.Hash, u.Index)] = u
 		var sb strings.Builder
 		fmt.Fprintf(&sb, "utxo %d %d %d %d %s %d %d %s %d", in.id(u.Hash[:]), u.Index, u.Type, in.id(u.Asset[:]),
 			integerToBig(u.Amount).String(), in.id(u.LockHash[:]), in.key(u.Mask), Hex(u.Script), len(u.Keys))
@@ -270,14 +270,14 @@ func execValidateSub(st *State, line string) Result {
 		ph := ver.PayloadHash()
 		key := ph
 		if t[1] != "-" {
-			key = hashOf(UnHex(t[1]))
+			key = c05HashOf(UnHex(t[1]))
 		}
 		snap := ""
 		if t[2] == "1" {
 			snap = "snap"
 		}
-		s.txs[key] = &vStoredTx{ver: ver, snap: snap}
-		signer := extraSigner(ver.Extra)
+		s.txs[key] = &c05VStoredTx{ver: ver, snap: snap}
+		signer := c05ExtraSigner(ver.Extra)
 		var sb strings.Builder
 		fmt.Fprintf(&sb, "stx %d %d %s %d %d %d %d %d", in.id(key[:]), in.id(ph[:]), t[2], ver.TransactionType(),
 			in.id(ver.Extra), in.str(signer.String()), in.key(signer.PublicSpendKey), len(ver.Inputs))
@@ -286,18 +286,18 @@ func execValidateSub(st *State, line string) Result {
 		}
 		fmt.Fprintf(&sb, " %d", len(ver.Outputs))
 		for _, o := range ver.Outputs {
-			sb.WriteString(" " + leanOutput(in, o))
+			sb.WriteString(" " + c05LeanOutput(in, o))
 		}
 		return Result{Out: "ok", LeanIn: sb.String(), Tags: []string{fmt.Sprintf("ledger:stx-type-%02x", ver.TransactionType())}}
 	case "node": // node signerSpend signerView payeeSpend payeeView stateHex txHash
 		if len(t) != 7 {
 			return bad
 		}
-		n := &common.Node{Signer: pubAddr(keyOf(UnHex(t[1])), keyOf(UnHex(t[2]))), Payee: pubAddr(keyOf(UnHex(t[3])), keyOf(UnHex(t[4]))),
-			State: string(UnHex(t[5])), Transaction: hashOf(UnHex(t[6]))}
+		n := &common.Node{Signer: c05PubAddr(c05KeyOf(UnHex(t[1])), c05KeyOf(UnHex(t[2]))), Payee: c05PubAddr(c05KeyOf(UnHex(t[3])), c05KeyOf(UnHex(t[4]))),
+			State: string(UnHex(t[5])), Transaction: c05HashOf(UnHex(t[6]))}
 		s.nodes = append(s.nodes, n)
 		return Result{Out: "ok", LeanIn: fmt.Sprintf("node %d %d %d %d %d", in.str(n.Signer.String()), in.key(n.Signer.PublicSpendKey),
-			in.key(n.Payee.PublicSpendKey), nodeStateCode(n.State), in.id(n.Transaction[:])), Tags: []string{"ledger:node-" + n.State}}
+			in.key(n.Payee.PublicSpendKey), c05NodeStateCode(n.State), in.id(n.Transaction[:])), Tags: []string{"ledger:node-" + n.State}}
 	case "cust": // cust spend view n (cspend cview pspend pview)…
 		if len(t) < 4 {
 			return bad
@@ -306,13 +306,13 @@ func execValidateSub(st *State, line string) Result {
 		if err != nil || len(t) != 4+4*n {
 			return bad
 		}
-		ca := pubAddr(keyOf(UnHex(t[1])), keyOf(UnHex(t[2])))
+		ca := c05PubAddr(c05KeyOf(UnHex(t[1])), c05KeyOf(UnHex(t[2])))
 		cur := &common.CustodianUpdateRequest{Custodian: &ca}
 		var sb strings.Builder
 		fmt.Fprintf(&sb, "cust %d %d %d", in.key(ca.PublicSpendKey), in.str(ca.String()), n)
 		for i := 0; i < n; i++ {
 			f := t[4+4*i:]
-			cn := &common.CustodianNode{Custodian: pubAddr(keyOf(UnHex(f[0])), keyOf(UnHex(f[1]))), Payee: pubAddr(keyOf(UnHex(f[2])), keyOf(UnHex(f[3])))}
+			cn := &common.CustodianNode{Custodian: c05PubAddr(c05KeyOf(UnHex(f[0])), c05KeyOf(UnHex(f[1]))), Payee: c05PubAddr(c05KeyOf(UnHex(f[2])), c05KeyOf(UnHex(f[3])))}
 			cur.Nodes = append(cur.Nodes, cn)
 			fmt.Fprintf(&sb, " %d %d", in.str(cn.Custodian.String()), in.str(cn.Payee.String()))
 		}
@@ -326,41 +326,41 @@ func execValidateSub(st *State, line string) Result {
 		if err != nil {
 			return bad
 		}
-		s.mint = &common.MintDistribution{MintData: common.MintData{Group: "UNIVERSAL", Batch: b, Amount: integerFromBig(parseBig(t[2]))}, Transaction: hashOf(UnHex(t[3]))}
+		s.mint = &common.MintDistribution{MintData: common.MintData{Group: "UNIVERSAL", Batch: b, Amount: integerFromBig(parseBig(t[2]))}, Transaction: c05HashOf(UnHex(t[3]))}
 		return Result{Out: "ok", LeanIn: fmt.Sprintf("mint %d %s %d", b, t[2], in.id(s.mint.Transaction[:]))}
 	case "asset": // asset id chain assetKeyHex balance
 		if len(t) != 5 {
 			return bad
 		}
-		id, chain := hashOf(UnHex(t[1])), hashOf(UnHex(t[2]))
-		s.assets[id] = &vAsset{asset: &common.Asset{Chain: chain, AssetKey: string(UnHex(t[3]))}, balance: integerFromBig(parseBig(t[4]))}
+		id, chain := c05HashOf(UnHex(t[1])), c05HashOf(UnHex(t[2]))
+		s.assets[id] = &c05VAsset{asset: &common.Asset{Chain: chain, AssetKey: string(UnHex(t[3]))}, balance: integerFromBig(parseBig(t[4]))}
 		return Result{Out: "ok", LeanIn: fmt.Sprintf("asset %d %d %d %s", in.id(id[:]), in.id(chain[:]), in.str(string(UnHex(t[3]))), t[4])}
 	case "dlock":
 		if len(t) != 3 {
 			return bad
 		}
-		u, h := hashOf(UnHex(t[1])), hashOf(UnHex(t[2]))
+		u, h := c05HashOf(UnHex(t[1])), c05HashOf(UnHex(t[2]))
 		s.depositLocks[u] = h
 		return Result{Out: "ok", LeanIn: fmt.Sprintf("dlock %d %d", in.id(u[:]), in.id(h[:]))}
 	case "glock":
 		if len(t) != 3 {
 			return bad
 		}
-		k, h := keyOf(UnHex(t[1])), hashOf(UnHex(t[2]))
+		k, h := c05KeyOf(UnHex(t[1])), c05HashOf(UnHex(t[2]))
 		s.ghost[k] = h
 		return Result{Out: "ok", LeanIn: fmt.Sprintf("glock %d %d", in.key(k), in.id(h[:]))}
 	case "batch": // batch msgHex n (key sig)…
-		return execBatch(t)
+		return c05ExecBatch(t)
 	case "validate":
 		if len(t) != 4 {
 			return bad
 		}
-		return execValidate(s, t[1] == "1", t[2] == "1", UnHex(t[3]))
+		return c05ExecValidate(s, t[1] == "1", t[2] == "1", UnHex(t[3]))
 	}
 	return bad
 }
 
-func execBatch(t []string) Result {
+func c05ExecBatch(t []string) Result {
 	bad := Result{Out: "bad-op", LeanIn: "bad batch"}
 	if len(t) < 3 {
 		return bad
@@ -369,14 +369,14 @@ func execBatch(t []string) Result {
 	if err != nil || len(t) != 3+2*n {
 		return bad
 	}
-	msg := hashOf(UnHex(t[1]))
+	msg := c05HashOf(UnHex(t[1]))
 	var keys []*crypto.Key
 	var sigs []*crypto.Signature
 	lean := fmt.Sprintf("batch %d", n)
 	all := n > 0
 	nvalid := 0
 	for i := 0; i < n; i++ {
-		k := keyOf(UnHex(t[3+2*i]))
+		k := c05KeyOf(UnHex(t[3+2*i]))
 		var sg crypto.Signature
 		copy(sg[:], UnHex(t[4+2*i]))
 		keys, sigs = append(keys, &k), append(sigs, &sg)
@@ -389,7 +389,7 @@ func execBatch(t []string) Result {
 			all = false
 		}
 	}
-	out, _, _ := catchSite(func() string { return fmt.Sprintf("ok %v", crypto.BatchVerify(msg, keys, sigs)) })
+	out, _, _ := c05CatchSite(func() string { return fmt.Sprintf("ok %v", crypto.BatchVerify(msg, keys, sigs)) })
 	res := Result{Out: out, LeanIn: lean, Nontrivial: n > 1, Tags: []string{"batch", fmt.Sprintf("batch:all-valid=%v", all)}}
 	if nvalid > 0 && nvalid < n {
 		res.Tags = append(res.Tags, "batch:mixed")
@@ -400,9 +400,9 @@ func execBatch(t []string) Result {
 	return res
 }
 
-func isSpecialInput(i *common.Input) bool { return i.Mint != nil || i.Deposit != nil || len(i.Genesis) > 0 }
+func c05IsSpecialInput(i *common.Input) bool { return i.Mint != nil || i.Deposit != nil || len(i.Genesis) > 0 }
 
-func execValidate(s *vStore, fork, consistent bool, raw []byte) Result {
+func c05ExecValidate(s *c05VStore, fork, consistent bool, raw []byte) Result {
 	in := s.in
 	ver, err := common.UnmarshalVersionedTransaction(raw)
 	if err != nil {
@@ -414,7 +414,7 @@ func execValidate(s *vStore, fork, consistent bool, raw []byte) Result {
 	res := Result{Tags: []string{fmt.Sprintf("type-%02x", tt)}}
 
 	var sb strings.Builder
-	extra64, extraSpend := make([]byte, 0), keyOf(tx.Extra)
+	extra64, extraSpend := make([]byte, 0), c05KeyOf(tx.Extra)
 	if len(tx.Extra) >= 64 {
 		extra64 = tx.Extra[:64]
 	} else {
@@ -437,18 +437,18 @@ func execValidate(s *vStore, fork, consistent bool, raw []byte) Result {
 			sb.WriteString(" -")
 		} else {
 			uk := d.UniqueKey()
-			fmt.Fprintf(&sb, " d %d %d %d %d %d %s", in.id(d.Chain[:]), b2i(strings.TrimSpace(d.AssetKey) == d.AssetKey && len(d.AssetKey) > 0),
-				in.str(d.AssetKey), b2i(strings.TrimSpace(d.Transaction) == d.Transaction && len(d.Transaction) > 0), in.id(uk[:]), integerToBig(d.Amount).String())
+			fmt.Fprintf(&sb, " d %d %d %d %d %d %s", in.id(d.Chain[:]), c05B2i(strings.TrimSpace(d.AssetKey) == d.AssetKey && len(d.AssetKey) > 0),
+				in.str(d.AssetKey), c05B2i(strings.TrimSpace(d.Transaction) == d.Transaction && len(d.Transaction) > 0), in.id(uk[:]), integerToBig(d.Amount).String())
 		}
 		if m := i.Mint; m == nil {
 			sb.WriteString(" -")
 		} else {
-			fmt.Fprintf(&sb, " m %d %d %s", b2i(m.Group == "UNIVERSAL"), m.Batch, integerToBig(m.Amount).String())
+			fmt.Fprintf(&sb, " m %d %d %s", c05B2i(m.Group == "UNIVERSAL"), m.Batch, integerToBig(m.Amount).String())
 		}
 	}
 	fmt.Fprintf(&sb, " %d", len(tx.Outputs))
 	for _, o := range tx.Outputs {
-		sb.WriteString(" " + leanOutput(in, o))
+		sb.WriteString(" " + c05LeanOutput(in, o))
 	}
 	fmt.Fprintf(&sb, " %d", len(tx.References))
 	for _, r := range tx.References {
@@ -506,10 +506,10 @@ func execValidate(s *vStore, fork, consistent bool, raw []byte) Result {
 	}
 	var allKeys []*crypto.Key
 	for i, inp := range tx.Inputs {
-		if isSpecialInput(inp) {
+		if c05IsSpecialInput(inp) {
 			continue
 		}
-		u := s.utxos[vRef(inp.Hash, inp.Index)]
+		u := s.utxos[c05VRef(inp.Hash, inp.Index)]
 		if u == nil {
 			continue
 		}
@@ -529,7 +529,7 @@ func execValidate(s *vStore, fork, consistent bool, raw []byte) Result {
 			}
 			for _, inp := range tx.Inputs {
 				if st := s.txs[inp.Hash]; st != nil {
-					tryPair(extraSigner(st.ver.Extra).PublicSpendKey, sg)
+					tryPair(c05ExtraSigner(st.ver.Extra).PublicSpendKey, sg)
 					for _, pin := range st.ver.Inputs {
 						if pit := s.txs[pin.Hash]; pit != nil {
 							for _, o := range pit.ver.Outputs {
@@ -545,7 +545,7 @@ func execValidate(s *vStore, fork, consistent bool, raw []byte) Result {
 	}
 	aggAns := false
 	if as := tx.AggregatedSignature; as != nil {
-		o, _, _ := catchSite(func() string {
+		o, _, _ := c05CatchSite(func() string {
 			return fmt.Sprint(crypto.AggregateVerify(&as.Signature, allKeys, as.Signers, hash) == nil)
 		})
 		aggAns = o == "true"
@@ -557,7 +557,7 @@ func execValidate(s *vStore, fork, consistent bool, raw []byte) Result {
 		claimSig = s.custodian.Custodian.PublicSpendKey.Verify(crypto.Blake3Hash(tx.Extra[64:]), sg)
 	}
 	var curs *common.CustodianUpdateRequest
-	catchSite(func() string {
+	c05CatchSite(func() string {
 		c, err := common.ParseCustodianUpdateNodesExtra(tx.Extra, false)
 		if err == nil {
 			curs = c
@@ -572,11 +572,11 @@ func execValidate(s *vStore, fork, consistent bool, raw []byte) Result {
 		scalarOk = err == nil
 	}
 	if tt == common.TransactionTypeNodeCancel && len(tx.Extra) == 96 && len(tx.Inputs) == 1 && len(tx.Outputs) == 2 && len(tx.Outputs[1].Keys) == 1 {
-		o, _, _ := catchSite(func() string {
+		o, _, _ := c05CatchSite(func() string {
 			lp := s.txs[tx.Inputs[0].Hash]
 			pit := s.txs[lp.ver.Inputs[0].Hash]
 			pi := pit.ver.Outputs[lp.ver.Inputs[0].Index]
-			a := keyOf(tx.Extra[64:])
+			a := c05KeyOf(tx.Extra[64:])
 			x := crypto.ViewGhostOutputKey(pi.Keys[0], &a, &pi.Mask, uint64(lp.ver.Inputs[0].Index))
 			y := crypto.ViewGhostOutputKey(tx.Outputs[1].Keys[0], &a, &tx.Outputs[1].Mask, 1)
 			return fmt.Sprint(*x == *y)
@@ -586,7 +586,7 @@ func execValidate(s *vStore, fork, consistent bool, raw []byte) Result {
 	// CheckKey for every key-like value seen so far (after all interning above)
 	var validKeys []int
 	for _, k := range in.keylike {
-		if keyOf([]byte(k)).CheckKey() {
+		if c05KeyOf([]byte(k)).CheckKey() {
 			validKeys = append(validKeys, in.m[k])
 		}
 	}
@@ -598,11 +598,11 @@ func execValidate(s *vStore, fork, consistent bool, raw []byte) Result {
 	for _, p := range valid {
 		fmt.Fprintf(&sb, " %d %d", p.k, p.s)
 	}
-	fmt.Fprintf(&sb, " %d %d", b2i(aggAns), len(allKeys))
+	fmt.Fprintf(&sb, " %d %d", c05B2i(aggAns), len(allKeys))
 	for _, k := range allKeys {
 		fmt.Fprintf(&sb, " %d", in.key(*k))
 	}
-	fmt.Fprintf(&sb, " %d %d %d %d", b2i(claimSig), b2i(updSig), b2i(scalarOk), b2i(ghostEq))
+	fmt.Fprintf(&sb, " %d %d %d %d", c05B2i(claimSig), c05B2i(updSig), c05B2i(scalarOk), c05B2i(ghostEq))
 	if curs == nil {
 		sb.WriteString(" -")
 	} else {
@@ -616,13 +616,13 @@ func execValidate(s *vStore, fork, consistent bool, raw []byte) Result {
 	// ---- the real code, on a fresh decode
 	run := func(raw []byte) (string, string, string, error) {
 		var verr error
-		out, site, msg := catchSite(func() string {
+		out, site, msg := c05CatchSite(func() string {
 			v, err := common.UnmarshalVersionedTransaction(raw)
 			if err != nil {
 				verr = err
 				return "undecodable"
 			}
-			verr = v.Validate(s, vSnapTime, fork)
+			verr = v.Validate(s, c05VSnapTime, fork)
 			if verr != nil {
 				return "reject"
 			}
@@ -643,7 +643,7 @@ func execValidate(s *vStore, fork, consistent bool, raw []byte) Result {
 		case inp.Deposit != nil:
 			inSum.Add(inSum, integerToBig(inp.Deposit.Amount))
 		default:
-			u := s.utxos[vRef(inp.Hash, inp.Index)]
+			u := s.utxos[c05VRef(inp.Hash, inp.Index)]
 			if u == nil {
 				resolved = false
 				continue
@@ -651,10 +651,10 @@ func execValidate(s *vStore, fork, consistent bool, raw []byte) Result {
 			if u.Asset != tx.Asset {
 				sameAsset = false
 			}
-			if spent[vRef(inp.Hash, inp.Index)] {
+			if spent[c05VRef(inp.Hash, inp.Index)] {
 				distinct = false // one stored output counted twice creates value
 			}
-			spent[vRef(inp.Hash, inp.Index)] = true
+			spent[c05VRef(inp.Hash, inp.Index)] = true
 			inSum.Add(inSum, integerToBig(u.Amount))
 		}
 	}
@@ -674,14 +674,14 @@ func execValidate(s *vStore, fork, consistent bool, raw []byte) Result {
 		if !resolved || !sameAsset || !outsPositive || !distinct || inSum.Sign() <= 0 || inSum.Cmp(outSum) != 0 {
 			res.PropKey = "C01:conservation"
 			res.PropDesc = fmt.Sprintf("accepted with inputs=%s outputs=%s resolved=%v sameAsset=%v outputsPositive=%v distinctInputs=%v", inSum, outSum, resolved, sameAsset, outsPositive, distinct)
-		} else if why := checkAuthorization(s, ver, hash, tt); why != "" {
+		} else if why := c05CheckAuthorization(s, ver, hash, tt); why != "" {
 			res.PropKey, res.PropDesc = "C02:unauthorized", why
-		} else if why := tamperStream(s, ver, raw, fork, tt); why != "" {
+		} else if why := c05TamperStream(s, ver, raw, fork, tt); why != "" {
 			res.PropKey, res.PropDesc = "C02:tamper-accepted", why
 		}
 	case "reject":
 		res.Out = "reject"
-		res.Tags = append(res.Tags, "reject:"+errClass(verr))
+		res.Tags = append(res.Tags, "reject:"+c05ErrClass(verr))
 	default:
 		res.Out = out
 		res.Tags = append(res.Tags, "panic:"+site)
@@ -696,13 +696,13 @@ func execValidate(s *vStore, fork, consistent bool, raw []byte) Result {
 	if tx.AggregatedSignature != nil {
 		res.Tags = append(res.Tags, "sig:aggregate")
 	} else {
-		res.Tags = append(res.Tags, fmt.Sprintf("sig:maps-%s", bucket(len(tx.SignaturesMap))))
+		res.Tags = append(res.Tags, fmt.Sprintf("sig:maps-%s", c05Bucket(len(tx.SignaturesMap))))
 	}
-	res.Tags = append(res.Tags, "inputs-"+bucket(len(tx.Inputs)), "outputs-"+bucket(len(tx.Outputs)))
+	res.Tags = append(res.Tags, "inputs-"+c05Bucket(len(tx.Inputs)), "outputs-"+c05Bucket(len(tx.Outputs)))
 	return res
 }
 
-func bucket(n int) string {
+func c05Bucket(n int) string {
 	switch {
 	case n == 0:
 		return "0"
@@ -718,7 +718,7 @@ func bucket(n int) string {
 	return "256"
 }
 
-func b2i(b bool) int {
+func c05B2i(b bool) int {
 	if b {
 		return 1
 	}
@@ -726,7 +726,7 @@ func b2i(b bool) int {
 }
 
 // coarse error class for the histogram only (never compared)
-func errClass(err error) string {
+func c05ErrClass(err error) string {
 	if err == nil {
 		return "nil"
 	}
@@ -752,7 +752,7 @@ func errClass(err error) string {
 // C02, independent of the model: every ordinary (script / node-remove typed) input of an
 // accepted transaction carries at least its script threshold of distinct keys of its own key
 // list with valid signatures over the payload hash.
-func checkAuthorization(s *vStore, ver *common.VersionedTransaction, hash crypto.Hash, tt uint8) string {
+func c05CheckAuthorization(s *c05VStore, ver *common.VersionedTransaction, hash crypto.Hash, tt uint8) string {
 	tx := &ver.SignedTransaction
 	if tt == common.TransactionTypeMint || tt == common.TransactionTypeDeposit {
 		return ""
@@ -762,7 +762,7 @@ func checkAuthorization(s *vStore, ver *common.VersionedTransaction, hash crypto
 	type need struct{ lo, hi, threshold, input int }
 	var needs []need
 	for i, inp := range tx.Inputs {
-		u := s.utxos[vRef(inp.Hash, inp.Index)]
+		u := s.utxos[c05VRef(inp.Hash, inp.Index)]
 		if u == nil {
 			return fmt.Sprintf("input %d does not resolve", i)
 		}
@@ -813,14 +813,14 @@ func checkAuthorization(s *vStore, ver *common.VersionedTransaction, hash crypto
 
 // C02 tamper stream on the real crypto: flipping a payload byte or a signature byte of an
 // accepted, signature-authorised transaction must not be accepted (threshold-zero inputs aside).
-func tamperStream(s *vStore, ver *common.VersionedTransaction, raw []byte, fork bool, tt uint8) string {
+func c05TamperStream(s *c05VStore, ver *common.VersionedTransaction, raw []byte, fork bool, tt uint8) string {
 	tx := &ver.SignedTransaction
 	if tt == common.TransactionTypeMint {
 		return ""
 	}
 	needsSig := tt == common.TransactionTypeDeposit
 	for _, inp := range tx.Inputs {
-		u := s.utxos[vRef(inp.Hash, inp.Index)]
+		u := s.utxos[c05VRef(inp.Hash, inp.Index)]
 		if u != nil && (u.Type == common.OutputTypeScript || u.Type == common.OutputTypeNodeRemove) && len(u.Script) == 3 && u.Script[2] > 0 {
 			needsSig = true
 		}
@@ -834,12 +834,12 @@ func tamperStream(s *vStore, ver *common.VersionedTransaction, raw []byte, fork 
 	try := func(pos int, what string) string {
 		mut := bytes.Clone(raw)
 		mut[pos] ^= byte(1 << r.Intn(8))
-		out, _, _ := catchSite(func() string {
+		out, _, _ := c05CatchSite(func() string {
 			v, err := common.UnmarshalVersionedTransaction(mut)
 			if err != nil {
 				return "undecodable"
 			}
-			if v.Validate(s, vSnapTime, fork) == nil {
+			if v.Validate(s, c05VSnapTime, fork) == nil {
 				return "accept"
 			}
 			return "reject"
@@ -862,7 +862,7 @@ func tamperStream(s *vStore, ver *common.VersionedTransaction, raw []byte, fork 
 		sigs = append(sigs, as.Signature[:])
 	}
 	for _, m := range tx.SignaturesMap {
-		for _, i := range sortedIdx(m) {
+		for _, i := range c05SortedIdx(m) {
 			sigs = append(sigs, m[i][:])
 		}
 	}
